@@ -2,6 +2,7 @@ package engine
 
 import (
 	"fmt"
+	"regexp"
 	"go/ast"
 	"go/constant"
 	"go/token"
@@ -99,8 +100,24 @@ func (e *Exec) zeroVal(t types.Type) Val {
 	return v
 }
 
+var typeArgsRe = regexp.MustCompile(`\[[^\[\]]*\]`)
+
 func (e *Exec) typeID(t types.Type) string {
 	k := types.TypeString(t, nil)
+	// generic instantiations and their origin share one id (bodies are verified once, generically)
+	for typeArgsRe.MatchString(k) && strings.Contains(k, "grpctunnel.") {
+		k2 := typeArgsRe.ReplaceAllStringFunc(k, func(m string) string {
+			if m == "[]" {
+				return "\x00\x01"
+			}
+			return ""
+		})
+		if k2 == k {
+			break
+		}
+		k = k2
+	}
+	k = strings.ReplaceAll(k, "\x00\x01", "[]")
 	id, ok := e.typeIDs[k]
 	if !ok {
 		// stable ids: hash-free, ordered by first use is not stable across paths of
@@ -198,7 +215,15 @@ func leafKey(key string, l Leaf) string {
 	if l.Name == "" {
 		return key
 	}
-	return key + "#" + l.Name
+	return subKey(key, l.Name)
+}
+
+// subKey extends a heap key by a component name: "E:T" -> "E:T#f" -> "E:T#f.g".
+func subKey(key, name string) string {
+	if strings.Contains(key, "#") {
+		return key + "." + name
+	}
+	return key + "#" + name
 }
 
 func locSort(loc *Loc, l Leaf) string {
@@ -230,6 +255,12 @@ func (e *Exec) loadFrom(st *State, loc *Loc, useOld bool) Val {
 			v.T = append(v.T, app("select", a, loc.Ref))
 		}
 	}
+	// protobuf well-formedness: the message inside a set oneof wrapper is non-nil
+	if strings.HasPrefix(loc.Owner, "tunnelpb.") && strings.Contains(loc.Owner, "_") && len(v.T) == 1 {
+		if _, isPtr := loc.Typ.Underlying().(*types.Pointer); isPtr && !useOld {
+			st.assume(tImp(tNot(tEq(loc.Ref, "0")), tNot(tEq(v.T[0], "0"))))
+		}
+	}
 	if sig, ok := loc.Typ.Underlying().(*types.Signature); ok && loc.Owner != "" {
 		_ = sig
 		v.Prov = "(*" + loc.Owner + ")." + loc.Field
@@ -255,6 +286,7 @@ func (e *Exec) storeTo(st *State, loc *Loc, v Val) {
 		k := leafKey(loc.Key, l)
 		s := locSort(loc, l)
 		a := e.curArr(st, k, s)
+		st.wrote(k, loc.Ref)
 		if loc.Idx != "" {
 			e.setArr(st, k, s, app("store", a, loc.Ref, app("store", app("select", a, loc.Ref), loc.Idx, v.T[i])))
 		} else {
@@ -285,6 +317,9 @@ func (e *Exec) havocLoc(st *State, loc *Loc, rebaseOld bool) {
 		k := leafKey(loc.Key, l)
 		s := locSort(loc, l)
 		a := e.curArr(st, k, s)
+		if !rebaseOld {
+			st.wrote(k, loc.Ref)
+		}
 		var nv string
 		if loc.Idx != "" {
 			nv = app("store", a, loc.Ref, app("store", app("select", a, loc.Ref), loc.Idx, e.fresh("hv:"+k, l.Sort)))
@@ -316,6 +351,7 @@ func (e *Exec) havocAll(st *State, why string) {
 	// that later first reads see a fresh array instead.
 	e.ctr++
 	st.counts["heapgen"] = e.ctr
+	st.wrote("*", "*")
 	st.note("heap havoc: %s", why)
 }
 
@@ -508,7 +544,9 @@ func (e *Exec) val(st *State, v ssa.Value) Val {
 }
 
 func (e *Exec) funcRef(f *ssa.Function) string {
-	return e.declare(sym("fn:"+FuncName(f)), SInt)
+	n := e.declare(sym("fn:"+FuncName(f)), SInt)
+	e.addAxiom(app(">", n, "0"))
+	return n
 }
 
 func (e *Exec) globalAddr(st *State, g *ssa.Global) Val {
